@@ -47,4 +47,5 @@ func checkC15(c *Ctx) {
 	c.R.Floor("wait loops (at least one per side; four on the pinned tree)", w, 2)
 	c.R.Floor("broadcast sites (at least one per condition variable; seven on the pinned tree)", b, 2)
 	c.R.Floor("predicate stores that need a wake-up", s, 4)
+	c.condLocksExclusive()
 }
